@@ -202,5 +202,6 @@ func runC06(c *Ctx) {
 	r.Floor("ser-method", len(bn), 10, "statement types returned by the parser")
 	runC06Kw(c)
 	c06OptionIndependence(c, p, astPath)
+	c06Flags(c, p, P, astPath)
 	_ = token.ADD
 }
